@@ -48,13 +48,17 @@ TEXT = dict(
 # --- tie by translation (translators/go2lean, notes/go2lean.md; agreement theorems in lean/FitProps/C01Go2Lean.lean).
 # Kept as a separate block so that it never collides with edits of the dictionary above.
 PROP['regen'] = PROP['regen'] + ['go2lean:decoder', 'go2lean:encoder']
-PROP['go2lean_diff'] = ['Timestamp']      # lean/Go2LeanDiff/<Topic>.lean: search for a differing argument when an agreement theorem breaks
+PROP['go2lean_diff'] = ['Timestamp', 'RecordHeader']      # lean/Go2LeanDiff/<Topic>.lean: search for a differing argument when an agreement theorem breaks
 PROP['theorems'] = PROP['theorems'] + [
     'Fit.C01.C01_go2lean_dec_header',
     'Fit.C01.C01_go2lean_dec_header_wire',
     'Fit.C01.C01_go2lean_dec_field',
     'Fit.C01.C01_go2lean_dec_field_wire',
     'Fit.C01.C01_go2lean_dec_isCompressed',
-    'Fit.C01.C01_go2lean_enc_decide']
+    'Fit.C01.C01_go2lean_enc_decide',
+    'Fit.C01.C01_go2lean_hdr_dec_kind',
+    'Fit.C01.C01_go2lean_hdr_dec_local',
+    'Fit.C01.C01_go2lean_hdr_enc',
+    'Fit.C01.C01_go2lean_hdr_roundtrip']
 PROP['trusted_base'] = PROP['trusted_base'] + [
-    "translators/go2lean (Go→Lean for a small subset of Go, notes/go2lean.md) re-translates the compressed-timestamp statement blocks of decoder/decoder.go (decodeMessageData, decodeFields) and encoder/encoder.go (compressTimestampIntoHeader), selected by function name + assigned variable from the current source on every run; the agreement theorems *_go2lean_* state that the translated functions equal the hand-written model functions for all arguments; trusted: the translator's rendering of the subset (go/types computes constants and types) and FitModel/GoPrelude.lean"]
+    "translators/go2lean (Go→Lean for a small subset of Go, notes/go2lean.md) re-translates the compressed-timestamp and record-header statement blocks / conditions of decoder/decoder.go (decodeMessage, decodeMessageDefinition, decodeMessageData, decodeFields) and encoder/encoder.go (compressTimestampIntoHeader, encodeMessage), selected by function name + assigned variable from the current source on every run; the agreement theorems *_go2lean_* state that the translated functions equal the hand-written model functions for all arguments; trusted: the translator's rendering of the subset (go/types computes constants and types) and FitModel/GoPrelude.lean"]
